@@ -136,7 +136,7 @@ func (fx *FnExec) call(fr *frame, st *State, res ssa.Value, cc *ssa.CallCommon) 
 			if a.Callee != key {
 				continue
 			}
-			env := &CEnv{fx: fx, fr: fr, st: st, old: fr.entry, vars: fr.cvars}
+			env := &CEnv{fx: fx, fr: fr, st: st, old: fr.entry, vars: fr.cvars, scope: cc.Pos()}
 			v := env.Eval(a.Expr)
 			t, ok := v.V.(*Term)
 			if !ok {
@@ -768,6 +768,14 @@ func (fx *FnExec) appendBuiltin(fr *frame, st *State, cc *ssa.CallCommon, args [
 	key := elemFamKey(et, "")
 	fam := fx.family(st, key, ArrSort(RefSort, sarr.Sort))
 	fx.setFamily(st, key, c.Ite(inplace, c.Store(fam, s.Ref, a1), c.Store(fam, nr, a2)))
+	if sarr.Sort == byteArr {
+		// abstract byte strings: the appended window denotes the source's bytes, the old window is kept
+		fx.curPC = st.pc
+		fx.assumeGlobal(c.Eq(fx.rngTerm(a1, start, tlen), fx.rngTerm(ta, toff, tlen)))
+		fx.assumeGlobal(c.Eq(fx.rngTerm(a2, s.Len, tlen), fx.rngTerm(ta, toff, tlen)))
+		fx.assumeGlobal(c.Eq(fx.rngTerm(a2, fx.bv64(0), s.Len), fx.rngTerm(sarr, s.Off, s.Len)))
+		fx.arrayUpdated(sarr, a1, start, tlen)
+	}
 	return res
 }
 
